@@ -127,6 +127,9 @@ async fn step(
 pub enum Source<'a> {
     Random { seed: u64, steps: usize },
     Replay { choices: &'a [Choice] },
+    /// behaviour of the TLA+ model: a step that is not possible in the real run is adapted (same task on another
+    /// worker) or skipped; placement decisions stay with the real scheduler
+    Guided { choices: &'a [Choice] },
 }
 
 pub fn run_one(
@@ -201,6 +204,33 @@ pub fn run_one_with(
                     }
                     let k = pick(&mut rng, &choices, &bias);
                     let ch = choices[k].clone();
+                    taken.push(ch.clone());
+                    if !step(&mut c, &ch, run, i, out).await {
+                        stats.panicked = true;
+                        break;
+                    }
+                    i += 1;
+                }
+            }
+            Source::Guided { choices } => {
+                for ch in choices {
+                    let en = c.enabled();
+                    let pick: Option<Choice> = if en.contains(ch) {
+                        Some(ch.clone())
+                    } else {
+                        match ch {
+                            Choice::Exit { t, ok, .. } => en
+                                .iter()
+                                .find(|e| matches!(e, Choice::Exit { t: t2, ok: ok2, .. } if t2 == t && ok2 == ok))
+                                .cloned(),
+                            Choice::Lose { reason, .. } => en
+                                .iter()
+                                .find(|e| matches!(e, Choice::Lose { reason: r2, .. } if r2 == reason))
+                                .cloned(),
+                            _ => None,
+                        }
+                    };
+                    let Some(ch) = pick else { continue };
                     taken.push(ch.clone());
                     if !step(&mut c, &ch, run, i, out).await {
                         stats.panicked = true;
@@ -430,6 +460,46 @@ pub fn main(args: &[String]) -> i32 {
             }
             out.flush().unwrap();
             eprintln!("{}", json!({"runs": n, "steps": steps, "panics": pan, "quiescent": 0}));
+            0
+        }
+        "guided" => {
+            // --profile-file <json>  --file <ndjson: one JSON array of choices per line>  [--choices-dir d]
+            let profile: Profile = serde_json::from_str(&std::fs::read_to_string(arg(args, "--profile-file").expect("--profile-file")).unwrap()).unwrap();
+            let text = std::fs::read_to_string(arg(args, "--file").expect("--file")).unwrap();
+            let first: u64 = arg(args, "--first-run").unwrap_or("0").parse().unwrap();
+            let (mut n, mut steps, mut pan, mut qui) = (0u64, 0usize, 0, 0);
+            for (k, line) in text.lines().enumerate() {
+                if line.trim().is_empty() {
+                    continue;
+                }
+                let choices: Vec<Choice> = match serde_json::from_str(line) {
+                    Ok(c) => c,
+                    Err(e) => {
+                        eprintln!("bad behaviour line {k}: {e}");
+                        continue;
+                    }
+                };
+                let run = first + k as u64;
+                let mut taken = Vec::new();
+                let s = run_one(&profile, run, Source::Guided { choices: &choices }, &mut out, &mut taken);
+                n += 1;
+                steps += s.steps;
+                if s.panicked {
+                    pan += 1;
+                }
+                if s.quiescent {
+                    qui += 1;
+                }
+                if let Some(d) = arg(args, "--choices-dir") {
+                    std::fs::write(
+                        format!("{d}/run{run}.json"),
+                        serde_json::to_string(&json!({"profile": profile, "choices": taken})).unwrap(),
+                    )
+                    .unwrap();
+                }
+            }
+            out.flush().unwrap();
+            eprintln!("{}", json!({"runs": n, "steps": steps, "panics": pan, "quiescent": qui}));
             0
         }
         "profiles" => {
